@@ -248,7 +248,7 @@ macro_rules! tuple_check {
 pub fn check(rep: &Reporter) {
 	let maxlen = if rep.tier.thorough() { 6 } else { 5 };
 	rep.set_rule(&format!(
-		"all insert sequences of length 0..{maxlen} over {} value kinds (scalars, strings needing escapes, Unicode, nested containers, unit struct, and five Serialize impls that fail before writing / inside a sequence / inside a map value / on a non-string key / inside a struct field) into ArrayParams and into ObjectParams under 3 key schemes (incl. duplicate and escaped keys); every history is distinct by construction; rpc_params! with 0..4 arguments over the non-failing kinds, tuples of arity 1..16, slices, arrays, Vec, serde_json::Map, BatchRequestBuilder with 0..3 entries. Oracle: serde_json::to_value of each inserted value and a pair-preserving parse of the emitted text.",
+		"all insert sequences of length 0..{maxlen} over {} value kinds (scalars, strings needing escapes, Unicode, nested containers, unit struct, and five Serialize impls that fail before writing / inside a sequence / inside a map value / on a non-string key / inside a struct field) into ArrayParams and into ObjectParams under 3 key schemes (incl. duplicate and escaped keys); every history is distinct by construction; rpc_params! with 0..4 arguments over the non-failing kinds, tuples of arity 1..16, slices / arrays / Vec of length 0..3, serde_json::Map, BatchRequestBuilder with 0..3 entries. Oracle: serde_json::to_value of each inserted value and a pair-preserving parse of the emitted text.",
 		VS.len()
 	));
 	rep.assume("serde_json::to_value of a value is the reference for what 'the inserted value' is");
@@ -343,6 +343,36 @@ pub fn check(rep: &Reporter) {
 						}
 						local.case_unique(kind);
 					}
+				}
+			}
+		}
+	}
+	// slices, Vec and arrays of length 0, 1 and 2 (length 3 above): the empty ones must still be the JSON array `[]`
+	{
+		let empty: Vec<V> = vec![];
+		let arr0: [V; 0] = [];
+		for (kind, got) in [("slice", to_text((&empty[..]).to_rpc_params())), ("vec", to_text(empty.clone().to_rpc_params())), ("array", to_text(arr0.to_rpc_params()))] {
+			if !matches!(&got, Ok(Some(t)) if serde_json::from_str::<Value>(t).ok() == Some(json!([]))) {
+				rep.violation(&format!("{kind}:wrong:empty"), &format!("an empty {kind} -> {got:?}, expected the JSON array []"), json!({"kind": kind, "len": 0}));
+			}
+			local.case_unique(kind);
+		}
+		for a in &good {
+			let one = vec![*a];
+			for (kind, got) in [("slice", to_text((&one[..]).to_rpc_params())), ("vec", to_text(one.clone().to_rpc_params())), ("array", to_text([*a].to_rpc_params()))] {
+				if !matches!(&got, Ok(Some(t)) if serde_json::from_str::<Value>(t).ok() == Some(json!([a]))) {
+					rep.violation(&format!("{kind}:wrong"), &format!("{kind} [{a:?}] -> {got:?}"), json!({"kind": kind, "len": 1}));
+				}
+				local.case_unique(kind);
+			}
+			for b in &good {
+				let two = vec![*a, *b];
+				for (kind, got) in [("slice", to_text((&two[..]).to_rpc_params())), ("vec", to_text(two.clone().to_rpc_params())), ("array", to_text([*a, *b].to_rpc_params())), ("sub-slice", to_text((&two[2..]).to_rpc_params()))] {
+					let exp = if kind == "sub-slice" { json!([]) } else { json!([a, b]) };
+					if !matches!(&got, Ok(Some(t)) if serde_json::from_str::<Value>(t).ok() == Some(exp.clone())) {
+						rep.violation(&format!("{kind}:wrong"), &format!("{kind} of [{a:?},{b:?}] -> {got:?}, expected {exp}"), json!({"kind": kind, "len": 2}));
+					}
+					local.case_unique(kind);
 				}
 			}
 		}
